@@ -292,6 +292,14 @@ func genPow(r *rand.Rand) call {
 	if one := new(big.Rat).Abs(base); (base.Sign() == 0 || one.Cmp(big.NewRat(1, 1)) == 0) && r.Intn(3) == 0 {
 		// huge exponents only where they do not test memory: bases 0, 1, -1
 		e, ec = intArg(r)
+		if r.Intn(2) == 0 { // exponents beyond the machine range, both signs
+			z := new(big.Int).Lsh(big.NewInt(1), uint(63+r.Intn(10)))
+			z.Add(z, big.NewInt(int64(r.Intn(3))))
+			if r.Intn(2) == 0 {
+				z.Neg(z)
+			}
+			e, ec = new(big.Rat).SetInt(z), "big-exponent"
+		}
 	}
 	args := []numcall.Arg{numcall.ExactArg(r, base, bc, 35), numcall.ExactArg(r, e, ec, 35)}
 	if r.Intn(100) < 6 { // squares and cubes of machine integers that leave the machine range
